@@ -138,6 +138,7 @@ class Worker:
         self.env_extra = env_extra or {}
         self.proc = None
         self.errpath = None
+        self.leak_suspects = []
 
     def start(self):
         self.gen += 1
@@ -169,15 +170,17 @@ class Worker:
                 if not line:
                     break
                 line = line.rstrip("\n")
+                if line.startswith("LEAK"):
+                    self.leak_suspects.extend(int(x) for x in line.split()[1:])
+                    continue
+                if line.startswith("READY"):
+                    break
+                if line.startswith("RECYCLE"):
+                    recycle = True
+                    break
                 lines.append(line)
                 if line.startswith("END %d " % seed):
                     ended = True
-                    # a violated / cut run is followed by RECYCLE and process exit
-                    if " v=1 " in line or " cut=-" not in line:
-                        nxt = self.proc.stdout.readline()
-                        if nxt.startswith("RECYCLE"):
-                            recycle = True
-                    break
         finally:
             timer.cancel()
         parse_worker_lines(lines, res)
@@ -212,6 +215,13 @@ class Worker:
                 self.proc.stdin.flush()
                 self.proc.stdin.close()
             except (BrokenPipeError, OSError, ValueError):
+                pass
+            try:
+                rest = self.proc.stdout.read()
+                for line in (rest or "").splitlines():
+                    if line.startswith("LEAK"):
+                        self.leak_suspects.extend(int(x) for x in line.split()[1:])
+            except (OSError, ValueError):
                 pass
             try:
                 self.proc.wait(timeout=60)
@@ -427,6 +437,7 @@ class Check:
     def _execute(self, binp, workdir, t0):
         ncls = int(subprocess.run([binp, "nclasses", self.prop], stdout=subprocess.PIPE, text=True, env=scrub_env()).stdout.strip() or "1")
         results = {}
+        suspects = []
         lock = threading.Lock()
         counter = [0]
         deadline = time.time() + self.wall_budget
@@ -463,6 +474,8 @@ class Check:
                 n_done += 1
             for wk in procs.values():
                 wk.stop()
+                with lock:
+                    suspects.extend(wk.leak_suspects)
 
         threads = [threading.Thread(target=work, args=(w,)) for w in range(self.workers)]
         for t in threads:
@@ -472,6 +485,22 @@ class Check:
         batch_wall = time.time() - t0
         nruns = len(results)
         self.log("%d runs in %.1fs" % (nruns, batch_wall))
+
+        # ---------------- leak attribution: suspects of a batched LeakSanitizer check are re-run one by one
+        if suspects:
+            self.log("LeakSanitizer fired in a batch check: re-running %d suspect seeds individually" % len(suspects))
+            by_seed = {r.seed: i for i, r in results.items()}
+            wkl = {}
+            for seed in sorted(set(suspects))[:256]:
+                pclass = seed % ncls
+                wk = wkl.get(pclass)
+                if wk is None or wk.proc is None:
+                    wk = wkl[pclass] = Worker(binp, pclass, 8000 + pclass, workdir, dict(self.env_extra, HWSIM_LEAK_EVERY="1"))
+                r2 = wk.run_one(seed, self.prop, self.tier, timeout=self.run_timeout)
+                if r2.viol and seed in by_seed:
+                    results[by_seed[seed]] = r2
+            for wk in wkl.values():
+                wk.stop()
 
         # ---------------- determinism gate: first D completed seeds again, in other worker processes, other ids
         det_mismatch = []
